@@ -2,6 +2,7 @@ import GormModel.Drv.Util
 import GormModel.Model.Hooks
 import GormModel.Model.HookSchema
 import GormModel.Model.HookVisit
+import GormModel.Model.HookWalk
 import GormModel.Gen.Pipelines
 import GormModel.Gen.Finishers
 open Lean
@@ -112,6 +113,22 @@ def handleC13 (op : String) (args : Array Json) : Option Json := do
     -- which of the repairs F27 / F28 / F29 the regenerated facts find in the tree under check
     some (Json.mkObj [("filter", Json.bool genVisitFix.filter), ("root", Json.bool genVisitFix.root),
       ("distinct", Json.bool genVisitFix.distinct)])
+  | "hooks.walks" =>
+    -- ["hooks.walks", [[addressable?…]…], cur] -> the walks of Gorm.walks over ONE Statement for the tree under check
+    -- (Gorm.genWalkCfg, regenerated): per walk the invocations [element, CurDestIndex], and per walk the column a
+    -- `SetColumn(col, 100*walk + element + 1)` in every hook leaves behind (null = a hook panics: index out of range)
+    let slices ← (← jArr? (arg args 1)).toList.mapM fun a => do (← jArr? a).toList.mapM jBool?
+    let cur ← jNat? (arg args 2)
+    let ws := walks genWalkCfg slices cur
+    let cols := (List.range ws.length).map fun wi =>
+      let w := ws.getD wi []
+      let len := (slices.getD wi []).length
+      match walkSet (fun i => 100 * wi + i + 1) w (List.replicate len 0) with
+      | some r => natListJ r
+      | none => Json.null
+    some (Json.mkObj [("cfg", Json.arr #[Json.bool genWalkCfg.rewind, Json.bool genWalkCfg.advance]),
+      ("walks", Json.arr (ws.map fun w => Json.arr (w.map fun k => Json.arr #[natJ k.elem, natJ k.cur]).toArray).toArray),
+      ("cols", Json.arr cols.toArray)])
   | "hooks.batches" =>
     let n ← jNat? (arg args 1)
     let b ← jNat? (arg args 2)
